@@ -34,6 +34,22 @@ func init() {
 		QuickRuns: 600, QuickSecs: 75, ThoroughRuns: 15000, ThoroughSecs: 800,
 		RequiredProbes: []string{"drain.completed", "e2e.claim-succeeded", "deposit.refunded", "claim.tree-size>=9", "claim.last-leaf-of-odd-tree"}})
 
+	// C06 and C02 get a share of two-chain runs: concurrent relays / claims over the faulty network, with the
+	// porcupine second opinion on the client-visible history
+	for _, id := range []string{"C06", "C02"} {
+		sc := core.Lookup(id)
+		single := sc.Run
+		tcr := runTwoChain(&tcProfile{Prop: id, Steps: [2]int{60, 200}, Faults: true, Challenge: 3, Hooks: 15, BadRcpt: 12})
+		sc.Run = func(r *core.Run) *core.Violation {
+			if r.Intn(5) == 0 {
+				r.Logf("%s on the two-chain world (network faults, history checked with porcupine)", r.Prop)
+				return tcr(r)
+			}
+			return single(r)
+		}
+		sc.Rule += "; one run in five is a two-chain run in which relays / claims race over a lossy, duplicating, delaying network and the client-visible history (invoke = hand-over to the network, return = block result) is checked for linearizability with porcupine against an in-order counter / a paid-at-most-once set"
+	}
+
 	c16 := &tcProfile{Prop: "C16", Steps: [2]int{60, 200}, Faults: false, Challenge: 2, Hooks: 15, BadRcpt: 15, Admin: true, Reimport: 4, Plans: false}
 	core.Register(&core.Scenario{ID: "C16", Level: "exploration", Run: runTwoChain(c16), Components: comp, Assumptions: append(append([]string{}, assume...), "the re-imported chain starts at the next height; the L2's cached L1 validator set and per-height history are not part of genesis (documented exclusions)"),
 		Rule: "random two-chain histories with all message types (several bridges, deleted and re-proposed outputs, refunded deposits, removed validators, several batch-info generations, parameter changes) in which either chain is, at scheduler-chosen points and repeatedly, exported, validated and re-initialised on a fresh node at the next height; oracle: the second export is byte-identical per module, the L2's InitChain validator updates equal the bonded set, and the run continues on the re-imported node with the lock-step model still attached, so every later response, event and query must equal what the original chain would have produced (after a re-import every model deviation counts); non-trivial = >=2 deposits, >=1 withdrawal, >=1 successful claim",
